@@ -140,6 +140,29 @@ async def check_case(ctx, case):
             raise AssertionError(f"harness error: substituted expression {s2!r} does not parse: {exp[1]!r}")
         if not compare(ctx, f"{s!r} with table {table} ({label})", out[1], s2, exp[1], is_ahb, wcase):
             return
+    # the same resolution through the library's own package resolvers (dictionary based / ContentEvaluationResult based, the latter
+    # taking its table from context local evaluatable data that change from call to call while the resolver instance stays the same)
+    if ctx.rng.random() < 0.5:
+        from vf import evalhelp as H
+
+        known_table = {k: v for k, v in table.items() if v is not None}
+        cer = E.make_cer({}, {}, {}, packages=known_table)
+        mode = ctx.rng.choice(["hardcoded", "cer"])
+        shipped = await H.with_shipped_evaluators(mode, cer, lambda: parse_expression_including_unresolved_subexpressions(s, resolve_packages=True, replace_time_conditions=True))
+        ctx.evaluation()
+        ctx.count("resolutions_with_shipped_resolvers")
+        wcase = dict(case, note=f"{mode} package resolver")
+        if unknown:
+            if shipped[0] == "ok" or not isinstance(shipped[1], NotImplementedError):
+                ctx.violation("unknown-package", f"{s!r} with table {table} ({mode} resolver): package {unknown} is unknown, expected NotImplementedError, got: {describe(shipped)[:300]}", case=wcase)
+                return
+        elif shipped[0] != "ok":
+            ctx.violation(f"resolve-raises-{type(shipped[1]).__name__}", f"resolving {s!r} with table {table} ({mode} resolver) {describe(shipped)[:300]}", case=wcase)
+            return
+        else:
+            exp, _w = await resolve(s2, {}, False, False)
+            if not compare(ctx, f"{s!r} with table {table} ({mode} resolver)", shipped[1], s2, exp[1], is_ahb, wcase):
+                return
     if unknown:
         return
     # the flags on their own
